@@ -10,6 +10,7 @@ import (
 
 	"verif/check"
 	"verif/contract"
+	"verif/frame"
 	"verif/load"
 	"verif/run"
 	"verif/smt"
@@ -27,6 +28,26 @@ func main() {
 		os.Exit(check.RefreshLemmas("/verif"))
 	case "prove":
 		prove(os.Args[2:])
+	case "sweep-index":
+		// exploration aid: the zero-annotation bounds obligation on every function of the named
+		// packages (not a registered check; what it cannot justify is undecided, not a defect)
+		repo := "/repo"
+		prog, err := load.Load(repo)
+		if err != nil {
+			fmt.Println(err)
+			os.Exit(2)
+		}
+		for _, rel := range os.Args[2:] {
+			for _, fn := range prog.FuncsOf(rel) {
+				if fn.Parent() != nil || len(fn.Blocks) == 0 {
+					continue
+				}
+				r := frame.IndexSafety(prog, fn)
+				if !r.OK {
+					fmt.Println(r.Name, "::", r.Detail)
+				}
+			}
+		}
 	case "check", "baseline":
 		fs := flag.NewFlagSet("check", flag.ExitOnError)
 		tier := fs.String("tier", "", "quick|thorough")
